@@ -22,6 +22,18 @@ fn lits_for(tier: Tier) -> Vec<&'static str> {
 
 const FORMATS: [&str; 2] = ["aag", "aig"];
 
+fn long_contexts(kind: &str) -> Vec<&'static [u8]> {
+    if kind == "aag" {
+        vec![b"", b"aag ", b"aag 1 1 0 1 0\n", b"aag 1 1 0 1 0\n2\n2\n", b"aag 1 1 0 1 0\n2\n2\ni0 ", b"aag 1 1 0 1 0\n2\n2\nc\n"]
+    } else {
+        vec![b"", b"aig ", b"aig 1 1 0 1 0\n", b"aig 1 1 0 1 0\n2\n", b"aig 1 1 0 1 0\n2\ni0 ", b"aig 1 1 0 1 0\n2\nc\n"]
+    }
+}
+
+fn long_token_light(kind: &str) -> Vec<generic::Doc> {
+    generic::long_token_docs(&long_contexts(kind)).into_iter().map(|d| generic::Doc::new(format!("~{}", d.name), d.bytes)).collect()
+}
+
 fn main() {
     mc_core::subject::install_quiet_panic_hook();
     let cli = parse_cli();
@@ -72,7 +84,8 @@ fn main() {
                     uni: tier.pick(vec![1, 2, 3, 7, 8, 9], (1..=17).collect()),
                     chunks: tier.pick(vec![Some(1), Some(3), Some(8), None], vec![Some(1), Some(2), Some(3), Some(7), Some(8), Some(9), Some(16), None]),
                 };
-                let docs = inp.all();
+                let mut docs = inp.all();
+                docs.extend(long_token_light(kind));
                 report.count(&format!("{kind}_documents"), docs.len() as u64);
                 report.count(&format!("{kind}_subjects"), subs.len() as u64);
                 generic::c01(&subs, &docs, &params, &budget, &mut report);
@@ -115,16 +128,14 @@ fn main() {
             let mut groups = Vec::new();
             for kind in FORMATS {
                 // extreme counts only bite for the widest literal type: always include usize here
-                let subs = subjects::subjects(kind, &tier.pick(vec!["u32", "u8", "usize"], subjects::LITS.to_vec()));
+                let mut subs = subjects::subjects(kind, &tier.pick(vec!["u32", "u8", "usize"], subjects::LITS.to_vec()));
+                // what was parsed must also survive the renumbering entry point of aig.rs
+                subs.push(subjects::make(&format!("{kind}-renumber"), "u32"));
                 let inp = gen::inputs_seq(kind, tier, tier.pick(3, 4));
                 sample_docs(&mut report, kind, &inp.sequences);
                 let mut docs = inp.all();
                 docs.extend(gen::header_docs(kind));
-                let contexts: Vec<&[u8]> = if kind == "aag" {
-                    vec![b"", b"aag ", b"aag 1 1 0 1 0\n", b"aag 1 1 0 1 0\n2\n2\n", b"aag 1 1 0 1 0\n2\n2\ni0 ", b"aag 1 1 0 1 0\n2\n2\nc\n"]
-                } else {
-                    vec![b"", b"aig ", b"aig 1 1 0 1 0\n", b"aig 1 1 0 1 0\n2\n", b"aig 1 1 0 1 0\n2\ni0 ", b"aig 1 1 0 1 0\n2\nc\n"]
-                };
+                let contexts = long_contexts(kind);
                 docs.extend(generic::long_token_docs(&contexts));
                 groups.push((kind.to_string(), subs, generic::dedup_docs(docs)));
             }
@@ -142,6 +153,12 @@ fn main() {
                 let mut pairs: Vec<(usize, Corruption)> = Vec::new();
                 for c in cat {
                     for si in 0..subs.len() {
+                        // circuits with many variables do not fit the narrow literal types (their
+                        // error is the header's, rightly)
+                        let narrow = subs[si].name().contains("<u8>") || (subs[si].name().contains("<u16>") && c.doc.name.contains("three-byte"));
+                        if narrow && (c.doc.name.contains("two-byte") || c.doc.name.contains("three-byte")) {
+                            continue;
+                        }
                         pairs.push((si, Corruption { doc: c.doc.clone(), line: c.line, col_first: c.col_first, col_last: c.col_last, what: c.what.clone() }));
                     }
                 }
